@@ -97,9 +97,11 @@ pub mod vocab {
         Wait(int, bool),
         /// a message carrying the reply port of channel `c` was cast to actor `a`
         CastTo(int, int),
+        /// a task was handed to the executor (its text is erased, R8)
+        Spawn,
     }
-    pub enum Kind { Oneshot, Wait, CastTo }
-    pub open spec fn kind_of(e: Effect) -> Kind { match e { Effect::Oneshot(_) => Kind::Oneshot, Effect::Wait(_, _) => Kind::Wait, Effect::CastTo(_, _) => Kind::CastTo } }
+    pub enum Kind { Oneshot, Wait, CastTo, Spawn }
+    pub open spec fn kind_of(e: Effect) -> Kind { match e { Effect::Oneshot(_) => Kind::Oneshot, Effect::Wait(_, _) => Kind::Wait, Effect::CastTo(_, _) => Kind::CastTo, Effect::Spawn => Kind::Spawn } }
     }
 }
 pub use vocab::*;
@@ -133,6 +135,36 @@ impl<M> ActorRef<M> {
         ensures final(log).s == old(log).s.push(Effect::CastTo(self@, port_in(msg))))]
     pub fn cast(&self, msg: M) -> Result<(), MessagingErr<M>> { unimplemented!() }
 }
+verus! {
+/// an untyped actor reference: which actor
+#[verifier::external_body] pub struct ActorCell { _p: u8 }
+impl View for ActorCell { type V = int; uninterp spec fn view(&self) -> int; }
+#[verifier::external_body] #[verifier::reject_recursive_types(T)] pub struct JoinHandle<T> { _p: core::marker::PhantomData<T> }
+}
+verus! {
+impl ActorCell {
+    #[verifier::external_body] pub fn clone(&self) -> (r: ActorCell) ensures r@ == self@ { unimplemented!() }
+    /// reading the published status / the message type has no effect
+    #[verifier::external_body] pub fn get_status(&self) -> ActorStatus { unimplemented!() }
+    #[verifier::external_body] pub fn is_message_type_of<M>(&self) -> Option<bool> { unimplemented!() }
+}
+}
+// @include ../_common/status_order.rs
+#[verus_verify]
+impl ActorCell {
+    /// `actor.send_message::<M>(m)`: the message is offered to the actor's mailbox now (logged whether or not it is accepted)
+    #[verus_verify(external_body)]
+    #[verus_spec(r =>
+        with Tracked(log): Tracked<&mut EffectLog>
+        ensures final(log).s == old(log).s.push(Effect::CastTo(self@, port_in(msg))))]
+    pub fn send_message<M>(&self, msg: M) -> Result<(), MessagingErr<M>> { unimplemented!() }
+}
+/// R8: `crate::concurrency::spawn(async move { .. })` with the task's text erased
+#[verus_verify(external_body)]
+#[verus_spec(r =>
+    with Tracked(log): Tracked<&mut EffectLog>
+    ensures final(log).s == old(log).s.push(Effect::Spawn))]
+pub fn vx_spawn<T>(erased: ()) -> JoinHandle<T> { unimplemented!() }
 #[verus_verify]
 impl<T> JoinSet<T> {
     #[verus_verify(external_body)]
